@@ -28,7 +28,7 @@ SPECS["C03"] = {
     "outside": ["datagrams longer than the byte bound", "zlib/lz4 decoders and proto.Unmarshal", "net/http panic isolation", "scheduler starvation"],
     "assumptions": STUBS_COMMON + [PF_STUB],
     "jobs": [
-        {"pkg": "./internal/lexer", "harness": "internal/lexer", "mode": "machine", "nonterm_is_violation": True,
+        {"pkg": "./internal/lexer", "harness": "internal/lexer", "mode": "machine", "nonterm_is_violation": True, "max_steps": 400000,
          "entries": {"quick": ["VerifC03_All1", "VerifC03_All2", "VerifC03_All3", "VerifC03_All4", "VerifC03_All5",
                                "VerifC03_EventBody4", "VerifC03_EventBody8", "VerifC03_Twin"],
                      "thorough": ["VerifC03_All1", "VerifC03_All2", "VerifC03_All3", "VerifC03_All4", "VerifC03_All5", "VerifC03_All6",
@@ -55,10 +55,10 @@ SPECS["C02"] = {
                 "empty attribute fields (||) - not part of the documented form"],
     "assumptions": STUBS_COMMON + [PF_STUB],
     "jobs": [
-        {"pkg": "./internal/lexer", "harness": "internal/lexer", "mode": "machine", "nonterm_is_violation": True,
+        {"pkg": "./internal/lexer", "harness": "internal/lexer", "mode": "machine", "nonterm_is_violation": True, "max_steps": 400000,
          "entries": {"quick": ["VerifC02_All1", "VerifC02_All2", "VerifC02_All3", "VerifC02_All4", "VerifC02_All5", "VerifC02_All6", "VerifC02_AllNs5",
                                "VerifC02_Gram_1_1_0", "VerifC02_Gram_2_1_0", "VerifC02_Gram_2_2_0",
-                               "VerifC02_Gram_1_1_1x1", "VerifC02_Gram_1_1_1x2",
+                               "VerifC02_Gram_1_1_1x1", "VerifC02_Gram_1_1_1x2", "VerifC02_Gram_1_1_1x3",
                                "VerifC02_Event_1_1_0", "VerifC02_Event_2_3_0", "VerifC02_Event_0_0_1x1", "VerifC02_Event_1_2_1x2", "VerifC02_Event_1_1_2x1",
                                "VerifC02_AllTwin", "VerifC02_GramTwin"],
                      "thorough": ["VerifC02_All1", "VerifC02_All2", "VerifC02_All3", "VerifC02_All4", "VerifC02_All5", "VerifC02_All6", "VerifC02_All7",
